@@ -351,7 +351,7 @@ type Query @d(any: §) { f(a: String = § @d(any: §), any: Any = §): Int @d(an
 
 func runC13(c *explore.Ctx) {
 	// (a) schema documents
-	n := c.Pick(5, 6)
+	n := c.Pick(5, 7)
 	s := c.Sub("documents", fmt.Sprintf("every sentence of ≤ %d tokens of the type-system grammar (core alphabet) and the profile documents (plain and with a comment at every gap) × all 64 formatter configurations", n),
 		"parse(format(d)) succeeds; projection equal (descriptions unless switched off; schema blocks merged); format(parse(format(d))) = format(d)", "every document")
 	if s != nil {
